@@ -91,7 +91,7 @@ func GenOp(t *rapid.T, faults int) Op {
 	case "create":
 		op.Name = rapid.SampledFrom(createNames).Draw(t, "name")
 		op.Mode = rapid.SampledFrom(modes).Draw(t, "mode")
-		op.Perm = rapid.SampledFrom([]uint32{0644, 0600, 0x80000000 | 0755, 0x80000000 | 0700}).Draw(t, "perm")
+		op.Perm = rapid.SampledFrom([]uint32{0644, 0600, 0x80000000 | 0755, 0x80000000 | 0700, 0x80000000 | 0x04000000 | 0755, 0x80000000 | 0x40000000 | 0x20000000 | 0700, 0x40000000 | 0644}).Draw(t, "perm")
 		fault("create", "opendir", "opendir")
 	case "read":
 		op.Count = rapid.SampledFrom([]int{0, 1, 4, 64}).Draw(t, "count")
